@@ -29,16 +29,16 @@ Print Assumptions C16_status_total.
 
 (* F3a *)
 Theorem C16_numeral_panics_iff_out_of_range_nonneg : forall (ds : string) (n : N),
-  digits ds = Some n -> (forall r, ds <> String "-"%char r) ->
+  unsigned_shape ds = true -> digits ds = Some n -> (forall r, ds <> String "-"%char r) ->
   (parse_isize ds = Panic <-> (isize_max < Z.of_N n)%Z).
 Proof. exact parse_isize_panic_iff_nonneg. Qed.
 Print Assumptions C16_numeral_panics_iff_out_of_range_nonneg.
 Theorem C16_numeral_panics_iff_out_of_range_neg : forall (ds : string) (n : N),
-  digits ds = Some n -> (parse_isize (String "-"%char ds) = Panic <-> (- Z.of_N n < isize_min)%Z).
+  nonzero_led ds = true -> digits ds = Some n -> (parse_isize (String "-"%char ds) = Panic <-> (- Z.of_N n < isize_min)%Z).
 Proof. exact parse_isize_panic_iff_neg. Qed.
 Print Assumptions C16_numeral_panics_iff_out_of_range_neg.
 Theorem C16_arity_panics_iff_out_of_range : forall (ds : string) (n : N),
-  digits ds = Some n -> (parse_usize ds = Panic <-> (usize_max < n)%N).
+  unsigned_shape ds = true -> digits ds = Some n -> (parse_usize ds = Panic <-> (usize_max < n)%N).
 Proof. exact parse_usize_panic_iff. Qed.
 Print Assumptions C16_arity_panics_iff_out_of_range.
 
@@ -60,5 +60,6 @@ Example C16_known_witnesses :
   parse_isize "-9223372036854775808" = Value isize_min /\ parse_isize "-9223372036854775809" = Panic /\
   parse_usize "18446744073709551616" = Panic /\ parse_usize "18446744073709551615" = Value usize_max /\
   tptp_numeral isize_min = Panic /\ tptp_numeral (isize_min + 1) = Value "$uminus(9223372036854775807)" /\
+  parse_isize "-0" = NotAToken /\ parse_isize "007" = NotAToken /\
   fresh_global 18446744073709551615 1 = Panic /\ fresh_global 18446744073709551614 1 = Value "V18446744073709551615".
 Proof. repeat split; vm_compute; reflexivity. Qed.
